@@ -535,77 +535,111 @@ pub fn windows(steps: &[(usize, &'static str)], programs: &[Vec<Vec<u8>>]) -> Ve
 /// results and the same final content on the real code run sequentially?
 pub fn linearizable(case: &Case, replay_setup: &dyn Fn() -> World, outcome: &Outcome) -> bool {
     // one-at-a-time orders of the commands (each thread's own order respected), run on the real code through the
-    // same gate with each command's calls contiguous. Looseness of the specification (DESIGN.md Appendix A):
-    // an expired record may vanish at any time, so the collection half of a get that found an expired record
-    // (`check_if_expired`) may be postponed to the end — provided the command makes no further call after it.
+    // same gate with each command's calls contiguous. Looseness of the specification (DESIGN.md section 11):
+    // an expired record may vanish at any time, so the collection half (`check_if_expired`) of a get that found an
+    // expired record may happen later than the command's place in the order — at any point before the same client's
+    // next command — provided the command makes no further call after it (its answer was decided by the first call).
+    // A command so split contributes two units, First and Rest, to the order.
+    #[derive(Clone, Copy, PartialEq, Debug)]
+    enum Unit {
+        Whole,
+        First,
+        Rest,
+    }
     let n = case.programs.len();
-    let total: usize = case.programs.iter().map(|p| p.len()).sum();
-    let mut orders: Vec<Vec<usize>> = vec![];
-    fn perms(case: &Case, idx: &mut Vec<usize>, cur: &mut Vec<usize>, out: &mut Vec<Vec<usize>>, total: usize) {
-        if cur.len() == total {
-            out.push(cur.clone());
-            return;
+    let cmds: Vec<(usize, usize)> = case.programs.iter().enumerate().flat_map(|(t, p)| (0..p.len()).map(move |j| (t, j))).collect();
+    let nmask: u32 = if case.init == "expired" { 1u32 << cmds.len() } else { 1 };
+    for mask in 0..nmask {
+        // a set or delete is a single call: nothing to split
+        if cmds.iter().enumerate().any(|(b, (t, j))| (mask >> b) & 1 == 1 && matches!(case.programs[*t][*j][1], 0x01 | 0x11 | 0x04 | 0x14 | 0x08 | 0x18)) {
+            continue;
         }
-        for t in 0..case.programs.len() {
-            if idx[t] < case.programs[t].len() {
-                idx[t] += 1;
-                cur.push(t);
-                perms(case, idx, cur, out, total);
-                cur.pop();
-                idx[t] -= 1;
+        let units: Vec<Vec<Unit>> = (0..n)
+            .map(|t| {
+                let mut v = vec![];
+                for (b, (tt, _)) in cmds.iter().enumerate() {
+                    if *tt == t {
+                        if (mask >> b) & 1 == 1 {
+                            v.push(Unit::First);
+                            v.push(Unit::Rest);
+                        } else {
+                            v.push(Unit::Whole);
+                        }
+                    }
+                }
+                v
+            })
+            .collect();
+        let counts: Vec<usize> = units.iter().map(|u| u.len()).collect();
+        let mut orders: Vec<Vec<usize>> = vec![];
+        fn perms(counts: &[usize], idx: &mut Vec<usize>, cur: &mut Vec<usize>, out: &mut Vec<Vec<usize>>, total: usize) {
+            if cur.len() == total {
+                out.push(cur.clone());
+                return;
+            }
+            for t in 0..counts.len() {
+                if idx[t] < counts[t] {
+                    idx[t] += 1;
+                    cur.push(t);
+                    perms(counts, idx, cur, out, total);
+                    cur.pop();
+                    idx[t] -= 1;
+                }
             }
         }
-    }
-    perms(case, &mut vec![0; n], &mut vec![], &mut orders, total);
-    for order in &orders {
-        // threads whose LAST command may be split (postponed collection)
-        for mask in 0..(1u32 << n) {
+        perms(&counts, &mut vec![0; n], &mut vec![], &mut orders, counts.iter().sum());
+        for order in &orders {
+            // a Rest directly behind its First is the unsplit command: covered by the mask without that bit
+            let mut pos = vec![0usize; n];
+            let mut redundant = false;
+            let mut prev: Option<(usize, Unit)> = None;
+            for t in order {
+                let u = units[*t][pos[*t]];
+                pos[*t] += 1;
+                if u == Unit::Rest && prev == Some((*t, Unit::First)) {
+                    redundant = true;
+                    break;
+                }
+                prev = Some((*t, u));
+            }
+            if redundant {
+                continue;
+            }
             let w = replay_setup();
             let mut ex = Exec::start(&w, &case.programs);
-            let mut done_cmds = vec![0usize; n];
-            let mut postponed: Vec<usize> = vec![];
+            let mut pos = vec![0usize; n];
             let mut legal = true;
             for t in order {
-                let last = done_cmds[*t] + 1 == case.programs[*t].len();
-                if last && (mask >> *t) & 1 == 1 {
-                    // first call only
-                    let before = ex.completed(*t);
-                    if ex.parked_at(*t) == Some("get_by_key") {
-                        ex.grant(*t);
-                        if ex.parked_at(*t) == Some("check_if_expired") && ex.completed(*t) == before {
-                            postponed.push(*t);
-                        } else {
-                            // nothing to postpone: just complete the command
-                            if ex.completed(*t) == before {
-                                ex.run_command(*t);
-                            }
+                let u = units[*t][pos[*t]];
+                pos[*t] += 1;
+                match u {
+                    Unit::Whole => ex.run_command(*t),
+                    Unit::First => {
+                        let before = ex.completed(*t);
+                        if ex.parked_at(*t) != Some("get_by_key") {
+                            legal = false;
+                            break;
                         }
-                    } else {
-                        ex.run_command(*t);
+                        ex.grant(*t);
+                        if !(ex.parked_at(*t) == Some("check_if_expired") && ex.completed(*t) == before) {
+                            legal = false; // nothing to postpone
+                            break;
+                        }
                     }
-                } else {
-                    if postponed.contains(t) {
-                        legal = false;
-                        break;
+                    Unit::Rest => {
+                        let before = ex.completed(*t);
+                        ex.grant(*t);
+                        let _ = ex.parked_at(*t);
+                        if ex.completed(*t) == before {
+                            legal = false; // the command went on to a store call: not a one-at-a-time execution
+                            break;
+                        }
                     }
-                    ex.run_command(*t);
-                }
-                done_cmds[*t] += 1;
-            }
-            for t in &postponed {
-                let before = ex.completed(*t);
-                ex.grant(*t);
-                let _ = ex.parked_at(*t);
-                if ex.completed(*t) == before {
-                    legal = false; // the command went on to a store call: not a one-at-a-time execution
                 }
             }
             let o = ex.finish();
             if legal && o.hung.is_none() && o.results == outcome.results && strip_ts(&o.dump) == strip_ts(&outcome.dump) {
                 return true;
-            }
-            if mask == 0 && case.init != "expired" {
-                break; // nothing can be expired: the split variants add nothing
             }
         }
     }
